@@ -122,7 +122,7 @@ fn entry_dispatch(args: &[&str]) -> String {
     run_q(
         script,
         || {
-            gamedig::query_with_timeout_and_extra_settings(game, &IP, port, retries.and_then(timeout), extra)
+            gamedig::query_with_timeout_and_extra_settings(game, &crate::net::ip(), port, retries.and_then(timeout), extra)
                 .map(|b| canon(b.as_ref()))
         },
         |r| r.0.clone(),
@@ -144,10 +144,10 @@ fn entry_dispatch_module(args: &[&str]) -> String {
     let out = run_q(
         script,
         || {
-            if let Some(r) = crate::gen_games::valve_module(&id, &IP, port) {
+            if let Some(r) = crate::gen_games::valve_module(&id, &crate::net::ip(), port) {
                 return r.map(|g| canon_game(&g));
             }
-            match crate::gen_games::disp_module(&id, &IP, port) {
+            match crate::gen_games::disp_module(&id, &crate::net::ip(), port) {
                 Some(r) => r,
                 None => {
                     exists = false;
